@@ -125,7 +125,8 @@ def gen_case(rng, cid, profile="mixed"):
     for f in feats:
         allsc = [(None, s) for s in f["scenarios"]] + [(r, s) for r in f["rules"] for s in r["scenarios"]]
         expect["feats"][f["name"]] = {"nscen": len(allsc), "nrules": len(f["rules"]),
-                                      "nsteps": sum(len(s["steps"]) for _, s in allsc)}
+                                      "nsteps": sum(len(s["steps"]) for _, s in allsc),
+                                      "order": [s["name"] for _, s in allsc]}
         for r in f["rules"]:
             expect["rules"][r["name"]] = {"f": f["name"], "nscen": len(r["scenarios"])}
         for r, s in allsc:
@@ -142,7 +143,8 @@ def gen_case(rng, cid, profile="mixed"):
             for i, k in enumerate(s["steps"]):
                 steps.append({"text": f"{s['name']} step {i+1} {k}", "label": f"{s['name']} step {i+1}", "bg": False, "kind": k})
             serial = (s["name"] in serial_custom) if serial_custom is not None else ("serial" in inherited)
-            expect["scen"][s["name"]] = {"f": f["name"], "r": r["name"] if r else "", "serial": serial,
+            expect["scen"][s["name"]] = {"idx": len(expect["scen"]) + 1,
+                                         "f": f["name"], "r": r["name"] if r else "", "serial": serial,
                                          "budget": budget, "delay_us": delay,
                                          "allow_skipped": "allow.skipped" in inherited, "steps": steps}
             # outcome script per attempt
